@@ -63,7 +63,11 @@ def project_shape():
         raise X.ExtractError('projectToProbability: clipping loop has an unknown shape')
     tail = (r'else if \( ?sum > 1\.0 ?\) \{ retval\.array\(\) \*= v\.array\(\) / sum; \} else \{ '
             r'const auto diff = \( ?1\.0 - sum ?\) / count; retval\.array\(\) \*= \( ?v\.array\(\) \+ diff ?\); \}')
-    if not re.search(tail, body):
+    # same branches with the overflow-safe normalisation proposed in fixes/C08-4 (identical in exact arithmetic)
+    tail2 = (r'else if \( ?sum > 1\.0 ?\) \{ if \( ?std::isinf\( ?sum ?\) ?\) \{ retval\.array\(\) \*= v\.array\(\) / v\.maxCoeff\(\); retval /= retval\.sum\(\); \} '
+             r'else retval\.array\(\) \*= v\.array\(\) / sum; \} else \{ '
+             r'const auto diff = \( ?1\.0 - sum ?\) / count; retval\.array\(\) \*= \( ?v\.array\(\) \+ diff ?\); \}')
+    if not re.search(tail, body) and not re.search(tail2, body):
         raise X.ExtractError('projectToProbability: normalise / spread branches have an unknown shape')
     old = re.search(r'if \( ?checkEqualSmall\( ?sum, 1\.0 ?\) ?\) return retval; if \( ?checkEqualSmall\( ?sum, 0\.0 ?\) ?\) \{ '
                     r'retval\.array\(\) \+= 1\.0 / v\.size\(\); \} else if', body)
